@@ -156,8 +156,13 @@ Proof. exact (fun K o SR => @full_distribution_spec_partial K o SR). Qed.
 Print Assumptions C06_inputs_are_independent_photons_partial.
 
 (* ---- the mixture specification of the whole annotated pipeline ----
-   partial: (a) no run of >= 2 empty input modes, (b) relabelling does not change the group
-   decomposition of the outcomes of this input; both are closed computations for a concrete input *)
+   For every observable F of the output pattern, the sampler's expectation of F equals the sum over
+   the independent per-photon outcome vectors [raw] (labels per mode, weight = product of table
+   entries) of the expectation of F when each group of equal labels is sampled from its own
+   boson-sampling distribution D and the occupations are added ([outcome_output]).
+   partial: stated for inputs without a run of >= 2 empty modes (group_empty st = ([],[]), a closed
+   computation for a concrete input); the grouping of empty modes is covered by
+   C06_stats_normalised (all inputs) and by the correspondence run *)
 Theorem C06_mixture_spec_partial :
   forall {K} (o : ops K) (SR : StarRing o) nu p_i p2,
     filter_sound (o:=o) nu p_i p2 ->
@@ -165,12 +170,57 @@ Theorem C06_mixture_spec_partial :
       (forall g, D g <> []) ->
       forall (st : state) (F : state -> K),
         group_empty st = ([], []) -> st <> [] -> Forall (fun n => (0 <= n)%Z) st ->
-        (forall raw, In raw (map fst (state_outcomes o nu p_i p2 st 1%Z)) ->
-                     decompose n_modes (relabel (an_make raw)) = decompose n_modes (an_make raw)) ->
         wsum o (annotated_pdist o D n_modes (build_full o nu p_i p2 st)) F
         = wsum o (state_outcomes o nu p_i p2 st 1%Z) (fun raw => outcome_output (o:=o) D n_modes raw F).
-Proof. exact (fun K o SR => @mixture_spec_partial K o SR). Qed.
+Proof. exact (fun K o SR => @mixture_spec_nogroup K o SR). Qed.
 Print Assumptions C06_mixture_spec_partial.
+
+(* what [outcome_output] is: groups = equal labels, in first-occurrence order; each group g is drawn
+   from D g; the draws are independent and added mode-wise *)
+Theorem C06_outcome_output_unfold :
+  forall {K} (o : ops K) (D : state -> list (state * K)) n_modes raw F,
+    outcome_output (o:=o) D n_modes raw F = groups_expect (o:=o) D (decompose n_modes (an_make raw)) F /\
+    (forall g gs, groups_expect (o:=o) D (g :: gs) F = wsum o (D g) (fun s => gexp (o:=o) D gs s F)) /\
+    (forall g gs acc, gexp (o:=o) D (g :: gs) acc F = wsum o (D g) (fun s => gexp (o:=o) D gs (zip_add acc s) F)) /\
+    (forall acc, gexp (o:=o) D [] acc F = F acc).
+Proof. exact (fun K o D n raw F => conj eq_refl (conj (fun _ _ => eq_refl) (conj (fun _ _ _ => eq_refl) (fun _ => eq_refl)))). Qed.
+Print Assumptions C06_outcome_output_unfold.
+
+(* ---- output distribution is normalised when the backend's distributions are ---- *)
+Theorem C06_output_normalised :
+  forall {K} (o : ops K) (SR : StarRing o) (D : state -> list (state * K)) n_modes lossy,
+    (forall g, D g <> []) -> (forall g, NoDup (dkeys (D g))) -> (forall g, dtotal o (D g) = k1 o) ->
+    (forall x, keqb o x (k1 o) = true -> x = k1 o) ->
+    forall s : stats, stats_total o s = k1 o -> dtotal o (pdist_calc o D n_modes lossy s) = k1 o.
+Proof. exact (fun K o SR => @pdist_calc_total K o SR). Qed.
+Print Assumptions C06_output_normalised.
+
+(* the repaired vacuum bookkeeping of pdist_calc (finding F1): whenever the branch
+   [total < 1 and loss_modes > 0] is taken the result sums to exactly one *)
+Theorem C06_repaired_vacuum_normalises :
+  forall {K} (o : ops K) (SR : StarRing o) (D : state -> list (state * K)) n_modes lossy,
+    (forall g, D g <> []) -> (forall g, NoDup (dkeys (D g))) ->
+    (forall x, keqb o x (k1 o) = true -> x = k1 o) ->
+    forall inputs,
+      klt o (dtotal o (basic_mix o D inputs)) (k1 o) && lossy = true ->
+      dtotal o (basic_pdist o D n_modes lossy inputs) = k1 o.
+Proof. exact (fun K o SR => @basic_pdist_repaired_total K o SR). Qed.
+Print Assumptions C06_repaired_vacuum_normalises.
+
+Theorem C06_output_normalised_R :
+  forall nu p_i p2 : R, (0 <= nu <= 1)%R -> (0 <= p_i <= 1)%R -> (0 <= p2 < 1)%R ->
+  forall (D : state -> list (state * R)) n_modes lossy,
+    (forall g, D g <> []) -> (forall g, NoDup (dkeys (D g))) -> (forall g, dtotal Rops (D g) = 1%R) ->
+    forall purity indist thr (st : state),
+      st <> [] -> Forall (fun n => (0 <= n)%Z) st ->
+      (thr = 0%R \/
+       match stats_raw Rops nu p_i p2 purity indist st with
+       | SBasic d => dtotal Rops (kept (o:=Rops) thr d) <> 0%R
+       | SFull d => dtotal Rops (kept (o:=Rops) thr d) <> 0%R
+       end) ->
+      dtotal Rops (pdist_calc Rops D n_modes lossy (build_statistics Rops nu p_i p2 purity indist thr st)) = 1%R.
+Proof. exact output_normalised_R. Qed.
+Print Assumptions C06_output_normalised_R.
 
 (* ---- remapping merges only label-isomorphic states ---- *)
 Theorem C06_remap_sound :
@@ -182,6 +232,21 @@ Theorem C06_remap_sound :
       Forall2 (@Permutation Z) (map (map fa) a) (map (map fb) b).
 Proof. exact remap_sound. Qed.
 Print Assumptions C06_remap_sound.
+
+(* relabelling never changes the decomposition into groups (same groups, same order), so states
+   that are merged have identical per-input output distributions *)
+Theorem C06_relabel_preserves_groups :
+  forall n_modes (a : astate), decompose n_modes (relabel a) = decompose n_modes a.
+Proof. exact decompose_relabel. Qed.
+Print Assumptions C06_relabel_preserves_groups.
+
+Theorem C06_remap_sound_groups :
+  forall {K} (o : ops K) (D : state -> list (state * K)) n_modes (a b : astate),
+    relabel a = relabel b ->
+    decompose n_modes a = decompose n_modes b /\
+    combine_groups o D (decompose n_modes a) = combine_groups o D (decompose n_modes b).
+Proof. exact (fun K o => @remap_sound_groups K o). Qed.
+Print Assumptions C06_remap_sound_groups.
 
 Theorem C06_remap_keys :
   forall {K} (o : ops K) (d : list (astate * K)) x,
